@@ -354,8 +354,6 @@ def history_roundtrip(t, m, report):
     """"whatever operation history produced the table": in every state the history explorer reaches, both
     writer forms must be the same well-formed document and read back to the table's content"""
     from biom import Table
-    if 0 in t.shape:
-        return
     dense = np.asarray(t.matrix_data.toarray(), float)
     if not np.isfinite(dense).all():
         return
